@@ -443,6 +443,8 @@ func EstimateUnits(r Rules, actions []Action, authFactory AuthFactory) (fees.Dim
 			return fees.Dimensions{}, ErrInvalidKeyValue
 		}
 		bandwidth += uint64(actionSize)
+		// each action is serialized as its own field: a 1-byte wire tag plus a varint length prefix
+		bandwidth += consts.MaxVarintLen
 		stateKeysMaxChunks = append(stateKeysMaxChunks, actionStateKeysMaxChunks...)
 		computeOp.Add(action.ComputeUnits(r))
 	}
